@@ -36,7 +36,10 @@ fn values<F: Flt>(l: &Layout, max: usize) -> Vec<Parts<F>> {
         out.push(Parts { vals, present: vec![false; g] });
     }
     // non-finite real parts and a non-finite entry in a present part (they convert like any value)
-    for re in [f64::NAN, f64::INFINITY, f64::NEG_INFINITY] {
+    // (not under Miri, which makes the sign and payload of a NaN produced by a float cast
+    // non-deterministic: the bit-for-bit comparisons between two conversion routes would differ)
+    let nonfinite: &[f64] = if cfg!(miri) { &[f64::INFINITY, f64::NEG_INFINITY] } else { &[f64::NAN, f64::INFINITY, f64::NEG_INFINITY] };
+    for &re in nonfinite {
         let vals: Vec<F> = (0..l.nslots()).map(|i| F::from64(if i == 0 { re } else { VALS[1 + i % 5] })).collect();
         out.push(Parts { vals, present: vec![true; g] });
         let vals: Vec<F> = (0..l.nslots()).map(|i| F::from64(if i == 1 { re } else { VALS[1 + i % 5] })).collect();
